@@ -27,7 +27,7 @@ import (
 	"verif/harness/xt"
 )
 
-const c18Rule = "rapid: (codec) byte strings of 0..1 MiB - random, repetitive, text, already-compressed - through DeflateAndBase64 then InflateAndDecode with the DEFLATE identifier, and near-miss encoding identifiers (case change, blanks, prefix, suffix, other URNs) which must yield an error and no data; (struct) Response with a full assertion, LogoutResponse, SOAP response envelope, EntityDescriptor with organisation / contact / key data, AuthnRequest and LogoutRequest values whose every string field is drawn from an any-bytes alphabet (XML metacharacters, ]]>, entity look-alikes, CR/LF/TAB, NUL and other controls, U+FFFE/FFFF, lone surrogates, invalid UTF-8, astral characters), marshalled with the library's Marshal / WriteXMLMarshalled; (handler) the same kind of strings as stored request fields and user attributes through the callback, and as request ID / element names through the SSO and logout error paths. Oracle: the output is exactly one document for the harness's strict XML reader; its element/attribute skeleton equals that of the same value marshalled with benign strings of the same emptiness pattern; every leaf read back by the strict reader equals the input (legal strings: exactly; otherwise: equal after removing illegal characters from the input and U+FFFD from the output); the library's own decoder followed by the marshaller reproduces the bytes. Non-trivial: a leaf contains a metacharacter, ]]>, a control character or invalid UTF-8. Distinct by (message type, hostile classes, leaf kind)."
+const c18Rule = "rapid: (codec) byte strings of 0..1 MiB - random, repetitive, text, already-compressed - through DeflateAndBase64 then InflateAndDecode with the DEFLATE identifier, and near-miss encoding identifiers (case change, blanks, prefix, suffix, other URNs, percent signs: escaped once more, malformed escapes) which must yield an error and no data; (struct) Response with a full assertion, LogoutResponse, SOAP response envelope, EntityDescriptor with organisation / contact / key data, AuthnRequest and LogoutRequest values whose every string field is drawn from an any-bytes alphabet (long runs of multi-byte characters that make the document span several output buffers, XML metacharacters, ]]>, entity look-alikes, CR/LF/TAB, NUL and other controls, U+FFFE/FFFF, lone surrogates, invalid UTF-8, astral characters), marshalled with the library's Marshal / WriteXMLMarshalled; (handler) the same kind of strings as stored request fields and user attributes through the callback, and as request ID / element names through the SSO and logout error paths. Oracle: the output is exactly one document for the harness's strict XML reader; its element/attribute skeleton equals that of the same value marshalled with benign strings of the same emptiness pattern; every leaf read back by the strict reader equals the input (legal strings: exactly; otherwise: equal after removing illegal characters from the input and U+FFFD from the output); the library's own decoder followed by the marshaller reproduces the bytes. Non-trivial: a leaf contains a metacharacter, ]]>, a control character or invalid UTF-8. Distinct by (message type, hostile classes, leaf kind)."
 
 type C18Case struct {
 	Kind   string   `json:"kind"`
@@ -68,7 +68,10 @@ func genBytes(t *rapid.T) []byte {
 }
 
 var c18EncodingIDs = []string{"", sxml.EncodingDeflate, strings.ToLower(sxml.EncodingDeflate), strings.ToUpper(sxml.EncodingDeflate), sxml.EncodingDeflate + " ", " " + sxml.EncodingDeflate, sxml.EncodingDeflate + "\x00", sxml.EncodingDeflate[:len(sxml.EncodingDeflate)-1],
-	sxml.EncodingDeflate + "2", "DEFLATE", "deflate", "gzip", "urn:oasis:names:tc:SAML:2.0:bindings:URL-Encoding", "urn:oasis:names:tc:SAML:2.0:bindings:URL-Encoding:GZIP", "none", "base64", "\x00"}
+	sxml.EncodingDeflate + "2", "DEFLATE", "deflate", "gzip", "urn:oasis:names:tc:SAML:2.0:bindings:URL-Encoding", "urn:oasis:names:tc:SAML:2.0:bindings:URL-Encoding:GZIP", "none", "base64", "\x00",
+	// identifiers with percent signs: escaped once more, badly escaped, or just containing one
+	"%", "100%", "%zz", "%2", "%%", sxml.EncodingDeflate + "%", sxml.EncodingDeflate + "%2", "%" + sxml.EncodingDeflate, "urn%3Aoasis%3Anames%3Atc%3ASAML%3A2.0%3Abindings%3AURL-Encoding%3ADEFLATE",
+	"urn%253Aoasis%253Anames", "+", "%00", "%20", "urn:oasis:names:tc:SAML:2.0:bindings:URL-Encoding:DEFLATE%00", "\t", "\n", sxml.EncodingDeflate + "\n", "urn:oasis:names:tc:SAML:2.0:bindings:URL-Encoding:DEFLATE;q=1", "*"}
 
 const c18NValues = 40
 
@@ -82,7 +85,16 @@ func genC18Case(t *rapid.T) C18Case {
 		c.EncID = rapid.SampledFrom(c18EncodingIDs).Draw(t, "encid")
 	default:
 		legalOnly := rapid.IntRange(0, 2).Draw(t, "legalonly") == 0
+		// one case in five: long values dense in multi-byte characters, so that the document spans several output buffers
+		// and characters fall across their boundaries at many alignments
+		long := rapid.IntRange(0, 4).Draw(t, "long") == 0
 		for i := 0; i < c18NValues; i++ {
+			if long && i%7 == 3 {
+				n := rapid.IntRange(300, 3000).Draw(t, "longlen")
+				unit := rapid.SampledFrom([]string{"€", "ü", "𝄞", "€a", "aü€𝄞", "日本語x"}).Draw(t, "longunit")
+				c.Values = append(c.Values, strings.Repeat("a", rapid.IntRange(0, 3).Draw(t, "longshift"))+strings.Repeat(unit, n/len(unit)+1))
+				continue
+			}
 			switch rapid.IntRange(0, 5).Draw(t, "vkind") {
 			case 0:
 				c.Values = append(c.Values, "")
